@@ -9,7 +9,10 @@ Qhull is not modelled.  For every generated point set the harness
         dense_ok                     (the property's density precondition)
   3. evaluates the tiling clauses (one plaquette per seed, containing it, areas sum to 1, two different
      plaquettes per edge) exactly on koala's plaquettes under the property's side conditions,
-  4. runs lloyd_relaxation for 1..5 steps (cell count preserved)."""
+  4. runs lloyd_relaxation for 1..5 steps (cell count preserved),
+  5. K: calls scipy.spatial.Voronoi on exactly the replicated points koala uses, serialises the record exactly and
+     compares koala's output arrays with the extracted model of the post-processing code (Model/VoronoiPost.v):
+     edge indices and crossings exactly and in order, positions to 1e-12 (see k_run)."""
 from lib import *  # noqa
 import gen
 import functools
@@ -18,17 +21,26 @@ from koala import voronization, graph_utils
 from koala.lattice import Lattice
 
 DRIVERS = ("c03",)
-MODEL_TARGETS = ["Model/Lattice.vo", "Model/Delaunay.vo"]
-TARGETS = ["Proofs/DelaunayFacts.vo"]
+MODEL_TARGETS = ["Model/Lattice.vo", "Model/Delaunay.vo", "Model/VoronoiPost.vo"]
+TARGETS = ["Proofs/DelaunayFacts.vo", "Proofs/VoronoiPostFacts.vo"]
 LEVEL = "proof"
 TRUST = [
-    "PARTIAL, checker-level: Qhull (scipy.spatial.Voronoi) and KDTree are not modelled; the theorems are about the certificate checkers "
+    "PARTIAL, checker-level: Qhull (scipy.spatial.Voronoi) is not modelled; the C03_* theorems are about the certificate checkers "
     "check_delaunay / check_dual of coq/Model/Delaunay.v, which are run (extracted) on every generated input and on koala's output",
+    "the code after `Voronoi(points)` (voronization.py:82-204) is modelled by hand in coq/Model/VoronoiPost.v (modelled, not verified) and tied to the code by K: "
+    "same scipy Voronoi record (Qhull is deterministic; recomputed by the harness on the replicated points), output arrays compared exactly (positions to 1e-12); "
+    "the C03_post_* theorems are about that model; post_correct (model output passes check_dual for an exact periodic Voronoi record) is NOT proved",
+    "KDTree.query(k=1) is modelled as the first vertex of minimal exact squared distance (C03_post_nearest_spec); queries whose runner-up is within 1e-9 are counted and skipped; "
+    "the enumeration order of the CPython set `list(set(pbc_ridges.flatten()))` (vertex numbering, not constrained by the property) is an input of the model's "
+    "re-indexing step with a checked contract (no repetition, exactly the surviving vertices): the harness recovers it from koala's positions (each within 1e-12 of "
+    "exactly one surviving model vertex)",
+    "shift_vertices: the model keeps the exact centroid (sum of three seeds, scale*3), koala rounds to float64: cases with a centroid coordinate within 1e-9 of a cell "
+    "boundary are skipped unless it is exactly on it and the inputs have <= 30 binary digits (then the float centroid is exact too)",
     "geometry fact G3 (a triangulation of the torus by positively oriented triangles glued side to side, of total area 1, all of whose circumdiscs "
     "are empty, is the periodic Delaunay triangulation, and its dual is the periodic Voronoi diagram) is not proved in Coq",
     "vertex positions are compared with the exact circumcentre/centroid with tolerance 2e-7 of the cell (Qhull accuracy)",
     "tiling clauses (one plaquette per seed, containment, area sum, two different plaquettes per edge) and the Lloyd clause are evaluated by the Python "
-    "harness with exact rational arithmetic on koala's plaquettes; they are not theorems (no model of the post-processing code)",
+    "harness with exact rational arithmetic on koala's plaquettes; they are not theorems",
     "point sets within 1e-9 of a degenerate predicate (four co-circular seeds, a vertex on the cell boundary) are counted and skipped (genericity clause)",
 ]
 ASSUMPTIONS = [
@@ -373,6 +385,230 @@ def window_has_cocircular(points):
         return True
 
 
+# ------------------------------------------------------------------ K: the post-processing code vs Model/VoronoiPost.v
+K_TIE = 1e-9
+
+
+def replicate(points):
+    """koala's generate_point_array / padding rule, re-implemented (voronization.py:26-38, :75-78): same float64 additions"""
+    pad = 1 if points.shape[0] > 10 else 2
+    offs = [(dx, dy) for dx in range(-pad, pad + 1) for dy in range(-pad, pad + 1)]
+    return np.concatenate([points + np.array(d, dtype=float) for d in offs]), pad
+
+
+def exact_ints(arr, S):
+    out = []
+    for row in np.asarray(arr, dtype=float).reshape(-1, 2):
+        r = []
+        for x in row:
+            n, d = float(x).as_integer_ratio()
+            r.append(n * (S // d))
+        out.append(r)
+    return out
+
+
+def k_prepare(points, shift):
+    """scipy's Voronoi of exactly the replicated points koala uses, serialised exactly for the `post` command"""
+    from scipy.spatial import Voronoi
+    rep, pad = replicate(points)
+    vor = Voronoi(rep)
+    S = max(common_scale(rep), common_scale(vor.vertices))
+    P = exact_ints(rep, S)
+    V = exact_ints(vor.vertices, S)
+    toks = ["post", "1" if shift else "0", hx(S), str(len(P))]
+    for x, y in P:
+        toks += [hx(x), hx(y)]
+    toks.append(str(len(V)))
+    for x, y in V:
+        toks += [hx(x), hx(y)]
+    rv = [(int(a), int(b)) for a, b in vor.ridge_vertices]
+    toks.append(str(len(rv)))
+    for a, b in rv:
+        toks += [hx(a), hx(b)]
+    rp = np.asarray(vor.ridge_points, dtype=int).reshape(-1, 2)
+    toks.append(str(len(rp)))
+    for a, b in rp:
+        toks += [str(int(a)), str(int(b))]
+    return {"line": " ".join(toks), "S": S, "V": V, "P": P, "rep": rep, "pad": pad, "nV": len(V), "nR": len(rv)}
+
+
+def parse_pairs(tok, f):
+    c = Cursor(tok)
+    return c.list(lambda: (f(c), f(c)))
+
+
+def k_run(ctx, queue):
+    """K: koala's generate_lattice output arrays == Model/VoronoiPost.post_process on the same Voronoi record.
+    Edge indices and crossings exactly and in the same order, positions to 1e-12.  The one thing the property leaves open is
+    the numbering of the vertices (koala: enumeration order of a CPython set, voronization.py:191); it is an input of the model's
+    re-indexing step: the harness recovers the enumeration koala used from its positions, the model checks the contract of a set
+    enumeration (no repetition, exactly the surviving vertices) and re-indexes; how often it equals CPython's set order built from
+    the MODEL's ridge list is recorded (K_order_is_cpython_set_order)."""
+    res, ex = ctx.res, ctx.res.extra
+    for k in ("K_compared", "K_skipped_near_tie_nearest", "K_skipped_near_tie_classification", "K_both_error", "K_exact_boundary_evaluated",
+              "K_order_sorted", "K_replication_exact_checked"):
+        ex.setdefault(k, 0)
+    items = []
+    for q in queue:
+        try:
+            q.update(k_prepare(q["points"], q["shift"]))
+            items.append(q)
+        except Exception as e:
+            # Qhull itself failed on the replicated points: koala must have failed the same way
+            if "exception" not in q:
+                ctx.k_mismatch(f"scipy Voronoi raised {type(e).__name__} in the harness but generate_lattice returned", q["case"])
+            else:
+                ex["K_both_error"] += 1
+    outs = run_driver_parallel(ctx.exe["c03"], [q["line"] for q in items], jobs=8)
+    stage2 = []
+    for q, o in zip(items, outs):
+        case, shift = q["case"], q["shift"]
+        if "error" in o:
+            raise RuntimeError(f"c03 driver error {o['error']} on {case}")
+        # ---- replication (exact model vs koala's float additions): order of the copies, padding rule
+        if q.get("check_rep"):
+            pts = q["points"]
+            Sp = common_scale(pts)
+            line = " ".join(["replicate", hx(Sp), str(len(pts))] + [hx(v) for xy in exact_ints(pts, Sp) for v in xy])
+            r = run_driver(ctx.exe["c03"], [line])[0]
+            mp = np.array(parse_pairs(r["points"], lambda c: c.z()), dtype=object).reshape(-1, 2)
+            mpf = np.array([[float(Fraction(int(a), Sp)), float(Fraction(int(b), Sp))] for a, b in mp]).reshape(-1, 2)
+            try:
+                krep = voronization.generate_point_array(pts, 1 if len(pts) > 10 else 2)
+            except Exception as e:
+                krep = None
+            if krep is None or krep.shape != mpf.shape or np.max(np.abs(krep - mpf)) > 1e-12 or unhx(r["padding"][0]) != q["pad"]:
+                ctx.k_mismatch("generate_point_array / padding differs from Model/VoronoiPost.generate_point_array (order of the copies, offsets)", case)
+            ex["K_replication_exact_checked"] += 1
+        if "err" in o:
+            if "exception" in q:
+                ex["K_both_error"] += 1
+            else:
+                ctx.k_mismatch(f"model rejects the Voronoi record ({' '.join(o['err'])}) but generate_lattice returned a lattice", case)
+            continue
+        S2 = unhx(o["scale"][0])
+        # ---- near ties: classification (only where koala's float differs from the exact value: shifted centroids)
+        if shift:
+            VS = parse_pairs(o["verts"], lambda c: c.z())
+            near, exact_b = False, False
+            for xy in VS:
+                for n in xy:
+                    r = n % S2
+                    d = min(r, S2 - r)
+                    if d == 0:
+                        exact_b = True
+                    elif d < K_TIE * S2:
+                        near = True
+            if near or (exact_b and not case.get("bits")):
+                ex["K_skipped_near_tie_classification"] += 1
+                continue
+            if exact_b:
+                ex["K_exact_boundary_evaluated"] += 1
+        else:
+            VS = q["V"]
+        # ---- near ties: nearest-vertex queries
+        c = Cursor(o["margins"])
+        tie = False
+        gap_min = ex.get("K_min_nearest_gap", 1.0)
+        for _ in range(c.int()):
+            for _ in range(2):
+                bd = c.z()
+                sd = c.next()
+                if sd == "N":
+                    continue
+                gap = (math.isqrt(unhx(sd)) - math.isqrt(bd)) / S2
+                if gap < K_TIE:
+                    tie = True
+                else:
+                    gap_min = min(gap_min, gap)
+        if tie:
+            ex["K_skipped_near_tie_nearest"] += 1
+            continue
+        ex["K_min_nearest_gap"] = gap_min
+        if "exception" in q:
+            ctx.k_mismatch(f"generate_lattice raised {q['exception']} but the model returns a lattice", case)
+            continue
+        c = Cursor(o["pbc"])
+        pbc = c.list(lambda: (c.int(), c.int(), c.z(), c.z()))
+        # the enumeration of the surviving vertices.  koala uses the CPython set order `list(set(pbc_ridges.flatten()))`
+        # (voronization.py:191), which the property does not constrain: the enumeration koala actually used is recovered
+        # from its positions (each must sit, to 1e-12, on exactly one surviving vertex of the model) and handed to the
+        # model, which checks the set contract (no repetition, exactly the survivors) and re-indexes.
+        flat = np.array([[j, k] for j, k, _, _ in pbc], dtype=np.int64).reshape(-1, 2).flatten()
+        cpy_order = [int(v) for v in list(set(flat))]
+        surv = sorted(set(cpy_order))
+        Lpos = q["arrays"][0]
+        if len(Lpos) != len(surv):
+            ex["K_compared"] += 1
+            ctx.k_mismatch(f"koala returns {len(Lpos)} vertices, the model {len(surv)} (ends of the {len(pbc)} returned ridges)", case)
+            continue
+        sp = np.array([[float(Fraction(VS[v][0], S2)), float(Fraction(VS[v][1], S2))] for v in surv]).reshape(-1, 2)
+        order, bad, ambiguous = [], None, False
+        for i, p in enumerate(Lpos):
+            hit = np.nonzero(np.all(np.abs(sp - p) <= 1e-12, axis=1))[0]
+            if len(hit) == 0:
+                bad = i
+                break
+            if len(hit) > 1:
+                ambiguous = True
+                break
+            order.append(surv[int(hit[0])])
+        if ambiguous:
+            ex["K_skipped_coincident_vertices"] = ex.get("K_skipped_coincident_vertices", 0) + 1
+            continue
+        if bad is not None:
+            ex["K_compared"] += 1
+            ctx.k_mismatch(f"vertex {bad} at {Lpos[bad].tolist()} is not (to 1e-12) the position of any vertex the model keeps", case)
+            continue
+        ex["K_order_is_cpython_set_order"] = ex.get("K_order_is_cpython_set_order", 0) + int(order == cpy_order)
+        ex["K_order_sorted"] += int(order == sorted(order))
+        toks = ["reindex", str(len(VS))] + [hx(v) for xy in VS for v in xy] + [str(len(order))] + [str(v) for v in order]
+        toks.append(str(len(pbc)))
+        for j, k, cx, cy in pbc:
+            toks += [str(j), str(k), hx(cx), hx(cy)]
+        q["S2"] = S2
+        q["sorted_out"] = o
+        stage2.append((q, " ".join(toks)))
+    outs2 = run_driver_parallel(ctx.exe["c03"], [t for _, t in stage2], jobs=8)
+    for (q, _), o in zip(stage2, outs2):
+        case = q["case"]
+        if "error" in o or "err" in o:
+            ctx.k_mismatch(f"model re-indexing rejected the set enumeration: {o.get('err') or o.get('error')}", case)
+            continue
+        Lpos, Ledges, Lcross = q["arrays"]
+        S2 = q["S2"]
+        mpos = parse_pairs(o["positions"], lambda c: c.z())
+        medges = parse_pairs(o["edges"], lambda c: c.int())
+        mcross = parse_pairs(o["crossing"], lambda c: c.z())
+        ex["K_compared"] += 1
+        kedges = [(int(a), int(b)) for a, b in Ledges]
+        kcross = [(int(a), int(b)) for a, b in Lcross]
+        if medges != kedges or mcross != kcross:
+            # not identical arrays: the property constrains the edges as a multiset of periodic edges, (j,k,c) ~ (k,j,-c)
+            def canon(e, c):
+                (j, k), (cx, cy) = e, c
+                if j > k or (j == k and (cx, cy) < (0, 0)):
+                    return (k, j, -cx, -cy)
+                return (j, k, cx, cy)
+            if sorted(canon(e, c) for e, c in zip(medges, mcross)) == sorted(canon(e, c) for e, c in zip(kedges, kcross)) and len(kedges) == len(kcross):
+                ex["K_agree_modulo_edge_order"] = ex.get("K_agree_modulo_edge_order", 0) + 1
+            else:
+                i = next((i for i in range(max(len(medges), len(kedges)))
+                          if i >= len(medges) or i >= len(kedges) or medges[i] != kedges[i] or mcross[i] != kcross[i]), None)
+                ctx.k_mismatch(f"edge arrays differ from the model (also as multisets of periodic edges): koala {len(kedges)} edges, model {len(medges)}; first difference at edge {i}: "
+                               f"koala {(kedges[i], kcross[i]) if i is not None and i < len(kedges) else None} "
+                               f"model {(medges[i], mcross[i]) if i is not None and i < len(medges) else None}", case)
+                continue
+        else:
+            ex["K_agree_exact_arrays"] = ex.get("K_agree_exact_arrays", 0) + 1
+        mp = np.array([[float(Fraction(a, S2)), float(Fraction(b, S2))] for a, b in mpos]).reshape(-1, 2)
+        if mp.shape != Lpos.shape or (len(mp) and np.max(np.abs(mp - Lpos)) > 1e-12):
+            ctx.k_mismatch(f"vertex positions differ from the model ({len(Lpos)} vs {len(mp)} vertices" +
+                           (f", max difference {np.max(np.abs(mp - Lpos)):.3g})" if mp.shape == Lpos.shape else ")"), case)
+            continue
+        ex["K_agree"] = ex.get("K_agree", 0) + 1
+
+
 # ------------------------------------------------------------------ evaluation
 def prepare_case(ctx, case):
     """run the implementation, build certificate and driver line.  Returns dict or None (skipped)."""
@@ -391,7 +627,11 @@ def prepare_case(ctx, case):
         Ledges = np.array(lat.edges.indices, dtype=int).reshape(-1, 2)
         Lcross = np.array(lat.edges.crossing, dtype=int).reshape(-1, 2)
     except Exception as e:
+        if getattr(ctx, "kq", None) is not None:
+            ctx.kq.append({"case": case, "points": points, "shift": shift, "exception": f"{type(e).__name__}: {e}"[:200]})
         return {"case": case, "fam": fam, "exception": f"{type(e).__name__}: {e}", "points": points}
+    if getattr(ctx, "kq", None) is not None:
+        ctx.kq.append({"case": case, "points": points, "shift": shift, "arrays": (Lpos, Ledges, Lcross), "check_rep": len(ctx.kq) % 8 == 0})
     S = max(common_scale(points), common_scale(Lpos))
     P = [(int(Fraction(float(x)) * S), int(Fraction(float(y)) * S)) for x, y in points]
     LP = [(int(Fraction(float(x)) * S), int(Fraction(float(y)) * S)) for x, y in Lpos]
@@ -420,7 +660,12 @@ def prepare_case(ctx, case):
 
 def evaluate(ctx, cases, label, lloyd=True):
     res = ctx.res
+    ctx.kq = []
     prepared = [c for c in (prepare_case(ctx, case) for case in cases) if c is not None]
+    kq, ctx.kq = ctx.kq, None
+    t0 = time.time()
+    k_run(ctx, kq)
+    res.extra["K_seconds"] = round(res.extra.get("K_seconds", 0) + time.time() - t0, 1)
     runnable = [c for c in prepared if "line" in c]
     outs = run_driver_parallel(ctx.exe["c03"], [c["line"] for c in runnable], jobs=8)
     omap = {id(c): o for c, o in zip(runnable, outs)}
